@@ -595,8 +595,23 @@ def run_histories(res, nhist, oracle, invalid_rate=0.0, blocks=True, modes=None,
         gaprule = detect_gaprule(res)
     nhist = nhist * budget_scale(res)
     hs = []
+    sibling = set()
     for i in range(nhist):
         cfg = gen_cfg(rng, small=small, modes=modes)
+        if hs and rng.random() < 0.3:
+            # a sibling of the previous history: same sample rate, start index in the same file period, other
+            # cadences; the two are executed in turns (below), so anything the library remembers about "the
+            # current file" per process instead of per writer shows
+            p0 = hs[-1][0]
+            alts = [(sc, fc) for sc, fc in [(1, 20), (2, 400), (3600, 1000), (1, 1), (10, 2500), (1, 1000), (3600, 60000),
+                                            (1, 250), (2, 100), (1, 5), (3600, 1), (3600, 2), (1, 500), (2, 2000)]
+                    if (sc, fc) != (p0.sc, p0.fc) and 1 <= fc * p0.n // (1000 * p0.d) <= (50 if small else 4000)
+                    and fc * p0.n >= 1000 * p0.d]
+            if alts:
+                sc, fc = rng.choice(alts)
+                cfg = Cfg(p0.n, p0.d, sc, fc, p0.start + rng.choice([0, 0, 1]), cfg.cont, cfg.comp, cfg.cksum, cfg.kind, cfg.size,
+                          cfg.order, cfg.is_complex, cfg.nsub)
+                sibling.add(i)
         ops = gen_ops(rng, cfg, rng.randrange(nops[0], nops[1] + 1), invalid_rate=invalid_rate, blocks=blocks, far=far)
         hs.append((cfg, ops))
     model_out = common.run_model("writer", [encode_case(cfg, ops, gaprule) for cfg, ops in hs])
@@ -611,7 +626,11 @@ def run_histories(res, nhist, oracle, invalid_rate=0.0, blocks=True, modes=None,
         i0 = 0
         while i0 < len(hs):
             grp = list(range(i0, min(len(hs), i0 + turn_rng.choice([1, 2, 2, 3]))))
+            while grp[-1] + 1 < len(hs) and (grp[-1] + 1) in sibling:      # siblings run together
+                grp.append(grp[-1] + 1)
             i0 = grp[-1] + 1
+            if any(i in sibling for i in grp):
+                res.count("histories-in-turns-with-a-sibling (same rate and start, other cadences)")
             outs = run_impl_in_turns([(hs[i][0], hs[i][1], os.path.join(work, "h%d" % i, "ch")) for i in grp], turn_rng)
             for i, o in zip(grp, outs):
                 executed[i] = o
